@@ -56,6 +56,9 @@ func Sign(ctx context.Context, rsfBytes []byte, r io.Reader, cert *certloader.Ce
 		return nil, nil, err
 	}
 	oldSize := nr.n
+	if rsf.SignatureOffset < 0 || oldSize < rsf.SignatureOffset {
+		return nil, nil, errors.New("image is shorter than its trailer says")
+	}
 	// generate patch
 	rsf.SignatureLength = int64(len(blob))
 	var b bytes.Buffer
